@@ -94,6 +94,10 @@ access(all) fun same(_ a: AnyStruct, _ b: AnyStruct): Bool {
   if let x = a as? {Int: AnyStruct} { if let y = b as? {Int: AnyStruct} { return x.length == y.length }; return false }
   return a.getType() == b.getType()
 }
+access(all) fun mkR0(): @R { return <- create R() }
+access(all) fun mkR1(): @R? { return <- create R() }
+access(all) fun mkR2(): @R?? { let a: @R? <- create R(); return <- a }
+access(all) fun mkR3(): @R??? { let a: @R?? <- mkR2(); return <- a }
 access(all) fun row(_ c: AnyStruct?, _ i: Bool, _ s: Bool, _ v: AnyStruct): [Bool] {
   return [c != nil, i, s, c == nil || same(c!, v)]
 }
@@ -260,6 +264,7 @@ func runCast(in, out string) {
 	defer o.Close()
 	var targets []TT
 	var cases []*caseRow
+	var depths []*depthRow
 	err := util.ReadLines(in, func(line []byte) error {
 		var k struct {
 			Kind string `json:"kind"`
@@ -276,6 +281,12 @@ func runCast(in, out string) {
 				return err
 			}
 			targets = t.Types
+		case "depth":
+			d := &depthRow{}
+			if err := json.Unmarshal(line, d); err != nil {
+				return err
+			}
+			depths = append(depths, d)
 		case "case":
 			c := &caseRow{}
 			if err := json.Unmarshal(line, c); err != nil {
@@ -526,6 +537,141 @@ func runCast(in, out string) {
 				"as?_succeeds_for": len(c.Cast), "targets": len(targets)}})
 		}
 	})
-	o.Write(map[string]any{"summary": true, "cases": len(cases), "targets": len(targets), "engines": len(engines),
+	// optional depth: the result of a successful cast is the operand (same run-time type, same number of
+	// optional layers), for struct and resource operands
+	de, dp := depthProbes(depths, report, harness)
+	evals += de
+	progs += dp
+	o.Write(map[string]any{"summary": true, "depth_cases": len(depths), "cases": len(cases), "targets": len(targets), "engines": len(engines),
 		"evaluations": evals, "distinct_nontrivial": len(nontriv), "programs": progs, "pruned_target_lines": pruned, "fails": fails})
+}
+
+type depthRow struct {
+	Kind     string `json:"kind"`
+	V        VT     `json:"v"`
+	Decl     TT     `json:"decl"`
+	Resource bool   `json:"resource"`
+	Targets  []struct {
+		T      TT   `json:"t"`
+		OK     bool `json:"ok"`
+		Result TT   `json:"result"`
+	} `json:"targets"`
+}
+
+func (v *VT) someDepth() (int, *VT) {
+	d := 0
+	for v.K == "some" {
+		d++
+		v = v.V
+	}
+	return d, v
+}
+
+// depthProbes: per (operand of optional depth d, target) one function; `as?` decides success, and on success the
+// run-time type of the result of `as?` and of `as!` (on a fresh operand) must be the specified result type.
+func depthProbes(rows []*depthRow, report func(Fail), harness func(string, string)) (int, int) {
+	evals, progs := 0, 0
+	for _, r := range rows {
+		d, payload := r.V.someDepth()
+		at := ""
+		var mk string
+		if r.Resource {
+			if payload.K != "res" || d > 3 {
+				harness("depth probe: unsupported resource operand", "")
+				return evals, progs
+			}
+			at = "@"
+			mk = fmt.Sprintf("mkR%d()", d)
+		} else {
+			mk = r.V.expr()
+		}
+		orig := syntax(&r.Decl, false)
+		var sb strings.Builder
+		sb.WriteString(castDecls)
+		for j, t := range r.Targets {
+			ts, exp := syntax(&t.T, false), syntax(&t.Result, false)
+			if r.Resource {
+				fmt.Fprintf(&sb, `access(all) fun p%d(): [Bool] {
+  let v: @AnyResource <- %s
+  let before = v.getType() == Type<@%s>()
+  if let y <- v as? @%s {
+    let z: @AnyResource <- y
+    let ok1 = z.getType() == Type<@%s>()
+    let v2: @AnyResource <- %s
+    let w <- v2 as! @%s
+    let z2: @AnyResource <- w
+    let ok2 = z2.getType() == Type<@%s>()
+    destroy z
+    destroy z2
+    return [true, ok1, ok2, before]
+  } else {
+    destroy v
+    return [false, true, true, before]
+  }
+}
+`, j, mk, orig, ts, exp, mk, ts, exp)
+			} else {
+				fmt.Fprintf(&sb, `access(all) fun p%d(): [Bool] {
+  let v: AnyStruct = %s
+  let before = v.getType() == Type<%s>()
+  if let y = v as? %s {
+    let z: AnyStruct = y
+    let w = v as! %s
+    let z2: AnyStruct = w
+    return [true, z.getType() == Type<%s>(), z2.getType() == Type<%s>(), before]
+  }
+  return [false, true, true, before]
+}
+`, j, mk, orig, ts, ts, exp, exp)
+			}
+		}
+		sb.WriteString("access(all) fun main(): [[Bool]] {\n  return [")
+		for j := range r.Targets {
+			if j > 0 {
+				sb.WriteString(", ")
+			}
+			fmt.Fprintf(&sb, "p%d()", j)
+		}
+		sb.WriteString("]\n}\n")
+		src := sb.String()
+		desc := fmt.Sprintf("%s%s (optional depth %d)", at, orig, d)
+		for _, eng := range engines {
+			w := host.NewWorld()
+			res := w.Script(src, eng.vm)
+			progs++
+			if res.Err != nil {
+				if host.IsInternal(res.Class) {
+					report(Fail{Kind: "crash", Engine: eng.name, Deviation: "none", Case: map[string]any{"value": desc}, Src: src,
+						Msg: fmt.Sprintf("%s: depth probes for %s fail with %s: %v", eng.name, desc, res.Class, res.Err)})
+					continue
+				}
+				harness(fmt.Sprintf("depth probes for %s fail on %s (%s): %v", desc, eng.name, res.Class, res.Err), src)
+				return evals, progs
+			}
+			arr := res.Value.(cadence.Array)
+			for j, t := range r.Targets {
+				row := arr.Values[j].(cadence.Array)
+				b := func(i int) bool { return bool(row.Values[i].(cadence.Bool)) }
+				ts, exp := syntax(&t.T, false), syntax(&t.Result, false)
+				cs := map[string]any{"operand_type": at + orig, "optional_depth": d, "target": at + ts, "spec_cast": t.OK, "spec_result_type": at + exp, "as?": b(0)}
+				evals += 4
+				if !b(3) {
+					harness(fmt.Sprintf("depth probe: operand of %s does not have the run-time type %s", desc, orig), src)
+					return evals, progs
+				}
+				if b(0) != t.OK {
+					report(Fail{Kind: "cast", Engine: eng.name, Deviation: "none", Shape: "depth", Case: cs,
+						Msg: fmt.Sprintf("%s: (%s) as? %s%s succeeds=%v, specification says %v", eng.name, desc, at, ts, b(0), t.OK)})
+					continue
+				}
+				for i, op := range []string{"as?", "as!"} {
+					if !b(1 + i) {
+						report(Fail{Kind: "identity", Engine: eng.name, Deviation: "none", Shape: "depth", Case: cs,
+							Msg: fmt.Sprintf("%s: (%s) %s %s%s succeeds but the result's run-time type is not %s%s: the cast does not yield the original value (optional layers changed)", eng.name, desc, op, at, ts, at, exp)})
+					}
+				}
+			}
+		}
+	}
+	return evals, progs
 }
